@@ -154,6 +154,11 @@ def judge(prop, progs, counts, verdicts, started, tier, seed, extra_cov=None):
         "steps_validated": counts[1],
         "known_finding_traces": sum(len(h) for h in knownhits.values()),
         "clause_histogram": _histogram(verdicts, prop),
+        # not one of the listed properties, never a VIOLATION: see DESIGN.md section 9
+        "observations": {"feed_rate": {
+            "forwarded_moves_judged": sum(r["cnt"].get("feedJudged", 0) for r in verdicts),
+            "run_at_another_modal_feed_rate": sum(r["cnt"].get("feedDrift", 0)
+                                                  for r in verdicts)}},
     }
     coverage.update(extra_cov or {})
     return status, coverage, len(violations)
